@@ -133,10 +133,58 @@ def spec_check(pid, cases, what):
             if e == "skip":
                 continue
             if e != g:
+                small = shrink_spec(c, f, t)
                 out.append(viol("%s-spec-%s" % (pid.lower(), c.desc[0].lower()),
-                                "%s at step %d reports %s, %s gives %s" % (d_sexpr(c.desc), t + 1, g, what, e), [c], step=t + 1, expected=str(e)))
+                                "%s at step %d reports %s, %s gives %s" % (d_sexpr(c.desc), t + 1, g, what, e), [small, c] if small is not c else [c],
+                                step=t + 1, expected=str(e), minimised_inputs=[str(x) for x in small.inputs()]))
                 break
     return out
+
+def shrink_spec(c, f, t, budget=60):
+    """minimise a single-run counterexample: cut after the failing step, then drop inputs from the front and replace
+    values by small integers while implementation and specification still disagree somewhere"""
+    xs = c.inputs()[:t + 1]
+    def fails(ys):
+        if not ys:
+            return False
+        k = Case.simple(c.desc, ys, dict(c.meta, role="shrunk"))
+        try:
+            run_impl([k], mode=c.meta.get("mode", "ex"))
+        except Exception:
+            return False
+        got = k.outs()
+        if any(isinstance(g, str) for g in got):
+            return False
+        exp = f(ys)
+        return any(e != "skip" and e != g for e, g in zip(exp, got)), k
+    best = None
+    r = fails(xs)
+    if not r or not r[0]:
+        return c
+    best = r[1]
+    n = 0
+    while len(xs) > 1 and n < budget:
+        n += 1
+        r = fails(xs[1:])
+        if r and r[0]:
+            xs = xs[1:]
+            best = r[1]
+        else:
+            break
+    for i in range(len(xs)):
+        if n >= budget:
+            break
+        for v in (F(0), F(1), F(round(xs[i]))):
+            if v == xs[i]:
+                continue
+            n += 1
+            ys = xs[:i] + [v] + xs[i + 1:]
+            r = fails(ys)
+            if r and r[0]:
+                xs = ys
+                best = r[1]
+                break
+    return best
 
 def no_error(pid, cases):
     out = []
